@@ -23,7 +23,7 @@ TESTED_ONLY = {
  'C06': ["that decoding / deleting / re-inserting yields the same family in a concrete run (oracle c06-inv); the rank formula, orders above the maximum, Euler-Poincare, independence of names, betti 0 = number of connected components, and that the Betti numbers depend only on the family of vertex sets (same family => same Betti numbers; a copy has its source's) are proved"],
  'C07': ['nothing of the statement is left to testing alone: shape and rank of the normal form, count, cycles (on the matrix and through boundary()) and independence are proved on the model; the oracle c07 ties them to the code'],
  'C08': ['that the *code* does not write through numpy views or shared dictionaries (before/after oracle on every call); in the model, that queries leave the world, that constructors bind only their result and write no dictionary that existed before (every constructor, at the level of exec), and structure / ownership / contents of deepcopy are proved'],
- 'C09': ['attribute contents and freshness of Filtration.copy; follow-up mutation scripts on either side (oracles fresh, same-content, unchanged, deepcopy-filt); names / orders / faces / attribute values of copy(), that copy() never fails, and freshness of copy / decode / flagComplex / vietorisRipsComplex / compose results, and names / faces / birth indices of Filtration.copy are proved; contents of flag / VR results are C11 / C12'],
+ 'C09': ['attribute contents of Filtration.copy; follow-up mutation scripts on either side (oracles fresh, same-content, unchanged, deepcopy-filt); names / orders / faces / attribute values of copy(), that copy() never fails, and freshness of copy / deepcopy / decode / flagComplex / vietorisRipsComplex / compose / Filtration.copy results, and names / faces / birth indices of Filtration.copy are proved; contents of flag / VR results are C11 / C12'],
  'C10': ['nothing of the statement is left to testing alone: the six operators, the order laws, copy == source, delete => strictly smaller and differ => never equal are proved on the model; the oracle c10 ties them to the code on mutated copies'],
  'C11': ['attributes of K in the flag complex; that a concrete sequence "flag complex, add edges, grow" meets the hypotheses of the grow = rebuild theorem is tested (oracles c11, samefam); flag complex = clique complex in both directions, idempotence, soundness of grow, grow = rebuild (for new simplices without other cofaces on a complex that is flag-complete apart from them) are proved for every complex that meets the vertex-set reading'],
  'C12': ['which pairs are close: the binary64 test distance <= eps is compared bit for bit with the code on every run and handed to the model as a list; its monotonicity in eps on doubles is proved (FloatAxioms.leb_spec); symmetry of the distance on doubles is not (oracle c12 with its own metric, subfam). The family for every set of close pairs, monotonicity in the set of pairs, no pair => just the points, all pairs => full simplex are proved'],
